@@ -46,7 +46,12 @@ mod example_list_u8;
 pub struct JSONArrayOfIntegers;
 impl JSONArrayOfIntegers {
     pub fn parse_as_list_i128(json : String) -> Result<Vec<i128>, String> {
-        let items = RawUnprocessedJSONArray::split_into_vector_of_strings(json).unwrap();
+        let boxed_items = RawUnprocessedJSONArray::split_into_vector_of_strings(json);
+        if boxed_items.is_err() {
+            let message = boxed_items.err().unwrap();
+            return Err(message);
+        }
+        let items = boxed_items.unwrap();
         let mut list: Vec<i128> = vec![];
         for item in items {
             let boxed_parse = item.parse::<i128>();
@@ -76,7 +81,12 @@ impl JSONArrayOfIntegers {
     }
 
     pub fn parse_as_list_i64(json : String) -> Result<Vec<i64>, String> {
-        let items = RawUnprocessedJSONArray::split_into_vector_of_strings(json).unwrap();
+        let boxed_items = RawUnprocessedJSONArray::split_into_vector_of_strings(json);
+        if boxed_items.is_err() {
+            let message = boxed_items.err().unwrap();
+            return Err(message);
+        }
+        let items = boxed_items.unwrap();
         let mut list: Vec<i64> = vec![];
         for item in items {
             let boxed_parse = item.parse::<i64>();
@@ -106,7 +116,12 @@ impl JSONArrayOfIntegers {
     }
 
     pub fn parse_as_list_i32(json : String) -> Result<Vec<i32>, String> {
-        let items = RawUnprocessedJSONArray::split_into_vector_of_strings(json).unwrap();
+        let boxed_items = RawUnprocessedJSONArray::split_into_vector_of_strings(json);
+        if boxed_items.is_err() {
+            let message = boxed_items.err().unwrap();
+            return Err(message);
+        }
+        let items = boxed_items.unwrap();
         let mut list: Vec<i32> = vec![];
         for item in items {
             let boxed_parse = item.parse::<i32>();
@@ -136,7 +151,12 @@ impl JSONArrayOfIntegers {
     }
 
     pub fn parse_as_list_i16(json : String) -> Result<Vec<i16>, String> {
-        let items = RawUnprocessedJSONArray::split_into_vector_of_strings(json).unwrap();
+        let boxed_items = RawUnprocessedJSONArray::split_into_vector_of_strings(json);
+        if boxed_items.is_err() {
+            let message = boxed_items.err().unwrap();
+            return Err(message);
+        }
+        let items = boxed_items.unwrap();
         let mut list: Vec<i16> = vec![];
         for item in items {
             let boxed_parse = item.parse::<i16>();
@@ -166,7 +186,12 @@ impl JSONArrayOfIntegers {
     }
 
     pub fn parse_as_list_i8(json : String) -> Result<Vec<i8>, String> {
-        let items = RawUnprocessedJSONArray::split_into_vector_of_strings(json).unwrap();
+        let boxed_items = RawUnprocessedJSONArray::split_into_vector_of_strings(json);
+        if boxed_items.is_err() {
+            let message = boxed_items.err().unwrap();
+            return Err(message);
+        }
+        let items = boxed_items.unwrap();
         let mut list: Vec<i8> = vec![];
         for item in items {
             let boxed_parse = item.parse::<i8>();
@@ -196,7 +221,12 @@ impl JSONArrayOfIntegers {
     }
 
     pub fn parse_as_list_u128(json : String) -> Result<Vec<u128>, String> {
-        let items = RawUnprocessedJSONArray::split_into_vector_of_strings(json).unwrap();
+        let boxed_items = RawUnprocessedJSONArray::split_into_vector_of_strings(json);
+        if boxed_items.is_err() {
+            let message = boxed_items.err().unwrap();
+            return Err(message);
+        }
+        let items = boxed_items.unwrap();
         let mut list: Vec<u128> = vec![];
         for item in items {
             let boxed_parse = item.parse::<u128>();
@@ -226,7 +256,12 @@ impl JSONArrayOfIntegers {
     }
 
     pub fn parse_as_list_u64(json : String) -> Result<Vec<u64>, String> {
-        let items = RawUnprocessedJSONArray::split_into_vector_of_strings(json).unwrap();
+        let boxed_items = RawUnprocessedJSONArray::split_into_vector_of_strings(json);
+        if boxed_items.is_err() {
+            let message = boxed_items.err().unwrap();
+            return Err(message);
+        }
+        let items = boxed_items.unwrap();
         let mut list: Vec<u64> = vec![];
         for item in items {
             let boxed_parse : Result<u64, ParseIntError> = item.parse();
@@ -256,7 +291,12 @@ impl JSONArrayOfIntegers {
     }
 
     pub fn parse_as_list_u32(json : String) -> Result<Vec<u32>, String> {
-        let items = RawUnprocessedJSONArray::split_into_vector_of_strings(json).unwrap();
+        let boxed_items = RawUnprocessedJSONArray::split_into_vector_of_strings(json);
+        if boxed_items.is_err() {
+            let message = boxed_items.err().unwrap();
+            return Err(message);
+        }
+        let items = boxed_items.unwrap();
         let mut list: Vec<u32> = vec![];
         for item in items {
             let boxed_parse : Result<u32, ParseIntError> = item.parse();
@@ -286,7 +326,12 @@ impl JSONArrayOfIntegers {
     }
 
     pub fn parse_as_list_u16(json : String) -> Result<Vec<u16>, String> {
-        let items = RawUnprocessedJSONArray::split_into_vector_of_strings(json).unwrap();
+        let boxed_items = RawUnprocessedJSONArray::split_into_vector_of_strings(json);
+        if boxed_items.is_err() {
+            let message = boxed_items.err().unwrap();
+            return Err(message);
+        }
+        let items = boxed_items.unwrap();
         let mut list: Vec<u16> = vec![];
         for item in items {
             let boxed_parse : Result<u16, ParseIntError> = item.parse();
@@ -316,7 +361,12 @@ impl JSONArrayOfIntegers {
     }
 
     pub fn parse_as_list_u8(json : String) -> Result<Vec<u8>, String> {
-        let items = RawUnprocessedJSONArray::split_into_vector_of_strings(json).unwrap();
+        let boxed_items = RawUnprocessedJSONArray::split_into_vector_of_strings(json);
+        if boxed_items.is_err() {
+            let message = boxed_items.err().unwrap();
+            return Err(message);
+        }
+        let items = boxed_items.unwrap();
         let mut list: Vec<u8> = vec![];
         for item in items {
             let boxed_parse : Result<u8, ParseIntError> = item.parse();
